@@ -74,6 +74,9 @@ type Node struct {
 	// ReverseReceiptBatches: eth_getBlockReceipts batches are answered in reverse order
 	// (JSON-RPC 2.0 leaves the order of a batch response open; every receipt names its block).
 	ReverseReceiptBatches bool
+	// ReverseReceipts: the receipts of one block are listed last transaction first
+	// (every receipt names its transaction by transactionIndex and transactionHash).
+	ReverseReceipts bool
 	// EmptyTraceOK: a block without traces answers trace_block with [].
 	ChainID uint64
 }
@@ -293,6 +296,10 @@ func (n *Node) one(req map[string]any, sv *Served) map[string]any {
 		sv.Blocks = append(sv.Blocks, ServedBlock{b.Num, b.Version})
 		out := make([]any, len(b.Txs))
 		for i := range b.Txs {
+			if n.ReverseReceipts {
+				out[len(b.Txs)-1-i] = receiptJSON(b, &b.Txs[i])
+				continue
+			}
 			out[i] = receiptJSON(b, &b.Txs[i])
 		}
 		res["result"] = out
